@@ -56,6 +56,11 @@ def legal(cls, c, cs):
     return True
 
 
+def weaker_or_missing(poorer, richer):
+    """the hand from fewer cards is missing, or the hand from more cards exists and is not weaker"""
+    return poorer is None or (richer is not None and not (richer < poorer))
+
+
 def kuhn_requires(cls, hole, board):
     return all(hand_or_none(cls, c) is not None for c in SC.single_cards(hole, board))
 
